@@ -12,13 +12,33 @@ ASSUMPTIONS = bc.ASSUMPTIONS_COMMON + [
 TRUSTED = bc.TRUSTED_COMMON
 
 
+def simple_cases(rng, n):
+    out = []
+    for _ in range(n):
+        kind = rng.choice(["span", "log"])
+        nt = rng.choice([1, 2, 2, 3, 3, 4])
+        secs = []
+        for _t in range(nt):
+            ops = [rng.choice(["e", "e", "e", "e", "f", "h"]) for _ in range(1 + rng.below(5))]
+            secs.append("t " + " ".join(ops))
+        k = rng.below(3)
+        if k == 0:
+            sched = ""
+        elif k == 1:
+            sched = bc.rand_schedule(rng, nt, rng.choice([10, 40, 120]), p_timeout=1000)
+        else:
+            sched = bc.seg_schedule([(rng.below(nt), 1 + rng.below(12), 0) for _ in range(1 + rng.below(6))])
+        out.append("SIMPLE %s %d %d | %s | s %s" % (kind, rng.choice([0, 1, 2, 3]), rng.choice([0, 0, 1, 3]), " | ".join(secs), sched))
+    return out
+
+
 def gen(rng, tier):
-    return bc.gen_with(rng, tier, 6, 3, 1)
+    return bc.gen_with(rng, tier, 6, 3, 1) + simple_cases(rng, 300 if tier == "quick" else 4000) + bc.periodic_cases(rng, 200 if tier == "quick" else 3000)
 
 
 LEVEL_TEXT = ("Theorems in coq/Properties_C03.v about the acceptor LTS of the batch processors: exporter calls never overlap (only the worker exports, begin/end alternate; "
               "the exporter's Shutdown happens after the worker has exited), every batch handed to the exporter is non-empty and has at most max_export_batch_size records, "
-              "also after ForceFlush. Tied to the C++ by trace acceptance under the scheduler shim; history checkers run on the implementation's traces.")
+              "also after ForceFlush; and about an acceptor LTS of the simple span/log processors called from any number of threads: the spin lock is a mutex and Export never starts while another Export is running. Tied to the C++ by trace acceptance under the scheduler shim; history checkers run on the implementation's traces.")
 LEVEL_NOTE = ("Trusted: Coq kernel, extraction, ocaml/driver.ml, the scheduler shim and token table, the drivers and generators; the model is hand-written and "
               "tied by trace acceptance (not verified against C++ semantics); SC memory; the ring buffer is abstracted to an atomic bounded FIFO (C11).")
 TECHNIQUE = "machine-checked proof in Coq 8.16 (inductive invariant of an interleaving transition system), tied to the C++ by accepting the implementation's event traces produced under a deterministic scheduler shim"
